@@ -227,6 +227,11 @@ func (fr *Frame) ptrTerm(v Val) string {
 		if v.Loc.Path == "" {
 			return v.Loc.Base
 		}
+		if nt, ok := v.Loc.Root.(*types.Named); ok && nt.Obj().Pkg() != nil && !strings.HasPrefix(nt.Obj().Pkg().Path(), "github.com/privacybydesign/gabi") {
+			// a struct of a package outside the repository: its fields are only ever touched by that package
+			fr.fc.assumptions[fmt.Sprintf("interior pointer &x%s of a %s (type from outside the repository) is an opaque non-nil reference: accesses through it are not related to the fields of x", v.Loc.Path, typeKey(v.Loc.Root))] = true
+			return fr.subRef(v.Loc.Base, v.Loc.Root, v.Loc.Path)
+		}
 		fr.fc.unsupported("address of embedded struct %s%s escapes", typeKey(v.Loc.Root), v.Loc.Path)
 		return fr.subRef(v.Loc.Base, v.Loc.Root, v.Loc.Path)
 	}
@@ -1833,6 +1838,14 @@ func (fr *Frame) receivedFacts(b *ssa.BasicBlock, st *State, v Val, cond string)
 		return
 	}
 	fr.notLocal(b, v)
+	// an object made by another goroutine is not an allocation of this call: it is modelled as one of the objects
+	// that existed at entry, which keeps it apart from everything this call allocates
+	switch v.Typ.Underlying().(type) {
+	case *types.Pointer, *types.Map:
+		fc.regVar(hAlloc, "Int")
+		fr.assume(b, sImp(cond, sApp("<=", v.S, fc.get(fr.pre, hAlloc))))
+		fc.assumptions["objects received from a channel are modelled as existing at entry of the receiving function (never one of its own allocations)"] = true
+	}
 	if fr.contract == nil || fr.inlined {
 		return
 	}
